@@ -29,7 +29,7 @@ META = {
                   "rejected, routing key splits back into the key components) on the definition; each case is then run on "
                   "the real objects and .values, raised-or-not and .routing_key must equal the definition.",
     "level_note": "Trusted: TLC, the transcription of the statement into Bind.tla, harness/wire.py (PREPARED body). Column types "
-                  "are int/text only (value encodings are Codec.tla's concern); MaxCols = 3 (quick) / 4 (thorough). Where the "
+                  "are int/text only (value encodings are Codec.tla's concern); MaxCols = 3 with one value per column (quick) / 4 with one value and 3 with two values incl. a negative int and the empty string (thorough). Where the "
                   "statement is silent both outcomes are admitted: a short positional list before v4 that still covers the "
                   "partition key may be rejected or passed on as is; the routing key of a statement whose key component is "
                   "null is unconstrained. Rejection = ValueError or KeyError.",
@@ -40,8 +40,11 @@ WITNESSES = ["Witness_PaddedUnset", "Witness_KeyOrderNotMarkerOrder", "Witness_S
 
 
 def constants(ctx):
-    return {"MaxCols": 3 if ctx.quick else 4, "MaxPk": 3, "PVs": {3, 4, 5}, "NVals": 1 if ctx.quick else 2,
-            "Partial": True, "MTypes": {"int"}, "MMaxPk": 1, "MOps": {"get"}}
+    """One TLC run per entry.  thorough: 4 markers with one value per column, and 3 markers with two values."""
+    base = {"MaxPk": 3, "PVs": {3, 4, 5}, "Partial": True, "MTypes": {"int"}, "MMaxPk": 1, "MOps": {"get"}}
+    if ctx.quick:
+        return [dict(base, MaxCols=3, NVals=1)]
+    return [dict(base, MaxCols=4, NVals=1), dict(base, MaxCols=3, NVals=2)]
 
 
 class Env:
@@ -118,68 +121,83 @@ def agreement(env, case):
     return None
 
 
+def witness_flags(st):
+    """The antecedents of Witness_* in Bind.tla, evaluated on one enumerated case."""
+    case, out = st["case"], st["out"]
+    return {
+        "Witness_PaddedUnset": case["kind"] == "seq" and out["accept"] and len(case["ents"]) < case["n"] == len(out["slots"]),
+        "Witness_KeyOrderNotMarkerOrder": bool(out["accept"] and out["rk"]["t"] == "bytes" and len(case["pk"]) >= 2 and
+                                               case["pk"][0] > case["pk"][1]),
+        "Witness_ShortBeforeV4": bool(out["accept"] and out["reject"]),
+        "Witness_NullKeyComponent": bool(out["accept"] and out["rk"]["t"] == "any"),
+    }
+
+
 def run(ctx):
-    consts = constants(ctx)
-    cfg = tlc.write_cfg(os.path.join(ctx.scratch, "bind.cfg"), constants=consts, invariants=["C30Invariants"], deadlock=False)
-    res, states = tlc.enumerate_states("Bind", cfg, ctx.scratch, timeout=900 if ctx.quick else 3000)
-    ctx.add_tlc(res, "exhaustive")
-    ctx.note("constants", {k: (sorted(v) if isinstance(v, (set, frozenset)) else v) for k, v in consts.items()})
+    runs = constants(ctx)
+    env = Env()
+    n = agree = 0
+    classes = {}
+    by_signature = {}
+    reached = dict.fromkeys(WITNESSES, False)
+    probes = {}
+    for consts in runs:
+        label = "MaxCols=%d NVals=%d" % (consts["MaxCols"], consts["NVals"])
+        cfg = tlc.write_cfg(os.path.join(ctx.scratch, "bind.cfg"), constants=consts, invariants=["C30Invariants"], deadlock=False)
+        res, states = B.enumerate_cases("Bind", cfg, ctx.scratch, timeout=900 if ctx.quick else 3000)
+        ctx.add_tlc(res, "exhaustive " + label)
+        if res.violation:
+            ctx.violation("TLC: %s violated on Bind.tla" % res.invariant, replay={"trace": [dict(s) for _, s in res.trace()]},
+                          signature="spec:%s" % res.invariant)
+            return
+        every = res.distinct // 3 + 1
+        for st in states:
+            case, out = st["case"], st["out"]
+            r = compare(env, st)
+            n += 1
+            for w, hit in witness_flags(st).items():
+                reached[w] = reached[w] or hit
+            cls = (case["kind"], version_class(case["pv"]),
+                   "+".join(sorted(out["kinds"])) or ("bound-or-rejected" if out["reject"] else "bound"), "rk=" + out["rk"]["t"])
+            classes[cls] = classes.get(cls, 0) + 1
+            if out["kinds"] or out["rk"]["t"] == "bytes" or any(s["t"] == "unset" for s in out["slots"]):
+                ctx.nontrivial(n)
+            if n % every == 7:
+                ctx.sample({"case": case, "out": out})
+            if "composite" not in probes and out["accept"] and out["rk"]["t"] == "bytes" and len(case["pk"]) >= 2:
+                probes["composite"] = st
+            if "too_many" not in probes and out["kinds"] == frozenset({"too_many"}):
+                probes["too_many"] = st
+            if r:
+                by_signature[r[1]] = by_signature.get(r[1], 0) + 1
+                if by_signature[r[1]] == 1:           # one report per distinct class of failure; the count goes to the evidence
+                    ctx.violation("%s | case n=%d pk=%s partial=%s pv=%d %s %r" % (
+                        r[0], case["n"], list(case["pk"]), case["partial"], case["pv"], case["kind"], B.bind_args(case)),
+                        replay=r[2], signature=r[1])
+            if case["kind"] == "seq" and len(case["ents"]) <= case["n"] and (case["pv"] >= 4 or len(case["ents"]) == case["n"]):
+                agree += 1
+                d = agreement(env, case)
+                sig = "agreement:%s:positional-vs-by-name" % version_class(case["pv"])
+                if d:
+                    by_signature[sig] = by_signature.get(sig, 0) + 1
+                if d and by_signature[sig] == 1:
+                    ctx.violation("positional and by-name binding of the same assignment differ: %s" % d,
+                                  replay={"agreement": d}, signature=sig)
+    ctx.note("constants", [{k: (sorted(v) if isinstance(v, (set, frozenset)) else v) for k, v in c.items()
+                            if k in ("MaxCols", "MaxPk", "PVs", "NVals", "Partial")} for c in runs])
     ctx.note("exhaustive", True)
-    if res.violation:
-        ctx.violation("TLC: %s violated on Bind.tla" % res.invariant, replay={"trace": [dict(s) for _, s in res.trace()]},
-                      signature="spec:%s" % res.invariant)
-        return
     # vacuity: the interesting antecedents must occur among the enumerated cases (same predicates as Witness_* in
     # Bind.tla); the thorough tier also has TLC violate each Witness_* on the smallest constants that reach them
-    reached = {
-        "Witness_PaddedUnset": any(s["case"]["kind"] == "seq" and s["out"]["accept"] and
-                                   len(s["case"]["ents"]) < s["case"]["n"] == len(s["out"]["slots"]) for s in states),
-        "Witness_KeyOrderNotMarkerOrder": any(s["out"]["accept"] and s["out"]["rk"]["t"] == "bytes" and len(s["case"]["pk"]) >= 2 and
-                                              s["case"]["pk"][0] > s["case"]["pk"][1] for s in states),
-        "Witness_ShortBeforeV4": any(s["out"]["accept"] and s["out"]["reject"] for s in states),
-        "Witness_NullKeyComponent": any(s["out"]["accept"] and s["out"]["rk"]["t"] == "any" for s in states),
-    }
     if not all(reached.values()):
         raise tlc.MachineryError("vacuity: not reached: %s" % sorted(k for k, v in reached.items() if not v))
     if not ctx.quick:
-        wconsts = dict(consts, MaxCols=2, NVals=1, Partial=False)
+        wconsts = dict(runs[0], MaxCols=2, NVals=1, Partial=False)
         for w in WITNESSES:
             wcfg = tlc.write_cfg(os.path.join(ctx.scratch, w + ".cfg"), constants=wconsts, invariants=[w], deadlock=False)
             wres = tlc.check_model("Bind", wcfg, ctx.scratch, timeout=600)
             if wres.invariant != w:
                 raise tlc.MachineryError("vacuity witness %s was not reached" % w)
     ctx.note("vacuity_witnesses_reached", len(WITNESSES))
-
-    env = Env()
-    n = agree = 0
-    classes = {}
-    by_signature = {}
-    for st in states:
-        case, out = st["case"], st["out"]
-        r = compare(env, st)
-        n += 1
-        cls = (case["kind"], version_class(case["pv"]), "+".join(sorted(out["kinds"])) or ("bound?" if out["reject"] else "bound"),
-               out["rk"]["t"])
-        classes[cls] = classes.get(cls, 0) + 1
-        if out["kinds"] or out["rk"]["t"] == "bytes" or any(s["t"] == "unset" for s in out["slots"]):
-            ctx.nontrivial(n)
-        if n % (len(states) // 4 + 1) == 7:
-            ctx.sample({"case": case, "out": out})
-        if r:
-            by_signature[r[1]] = by_signature.get(r[1], 0) + 1
-            if by_signature[r[1]] == 1:           # one report per distinct class of failure; the count goes to the evidence
-                ctx.violation("%s | case n=%d pk=%s partial=%s pv=%d %s %r" % (
-                    r[0], case["n"], list(case["pk"]), case["partial"], case["pv"], case["kind"], B.bind_args(case)),
-                    replay=r[2], signature=r[1])
-        if case["kind"] == "seq" and len(case["ents"]) <= case["n"] and (case["pv"] >= 4 or len(case["ents"]) == case["n"]):
-            agree += 1
-            d = agreement(env, case)
-            sig = "agreement:%s:positional-vs-by-name" % version_class(case["pv"])
-            if d:
-                by_signature[sig] = by_signature.get(sig, 0) + 1
-            if d and by_signature[sig] == 1:
-                ctx.violation("positional and by-name binding of the same assignment differ: %s" % d, replay={"agreement": d},
-                              signature=sig)
     ctx.evaluations = n + agree
     ctx.traces_validated = n
     ctx.note("positional_vs_by_name_pairs", agree)
@@ -188,20 +206,20 @@ def run(ctx):
     ctx.note("case_classes", {"/".join(k): v for k, v in sorted(classes.items())})
     # binding self-test: corrupted expectations must be noticed
     rejected = 0
-    probe = next(s for s in states if s["out"]["accept"] and s["out"]["rk"]["t"] == "bytes" and len(s["case"]["pk"]) >= 2)
+    probe = probes["composite"]
     bad = dict(probe["out"])
     bad["rk"] = {"t": "bytes", "b": tuple(probe["out"]["rk"]["b"][:-1])}          # composite without the trailing 0
     rejected += bool(compare(env, {"case": probe["case"], "out": bad}))
     bad = dict(probe["out"])
     bad["slots"] = tuple(reversed(probe["out"]["slots"]))
     rejected += bool(compare(env, {"case": probe["case"], "out": bad}))
-    probe = next(s for s in states if not s["out"]["accept"] and s["out"]["kinds"] == frozenset({"too_many"}))
+    probe = probes["too_many"]
     bad = dict(probe["out"], accept=True, reject=False)
     rejected += bool(compare(env, {"case": probe["case"], "out": bad}))
     if rejected != 3:
         raise tlc.MachineryError("binding self-test failed: %d of 3 corrupted expectations detected" % rejected)
     ctx.note("binding_selftest", {"corrupted_rejected": rejected})
-    ctx.assumptions += ["column types int/text, one (quick) or two (thorough) values per column; value encodings belong to Codec.tla",
+    ctx.assumptions += ["column types int/text, one or two values per column; value encodings belong to Codec.tla",
                         "rejection = ValueError or KeyError raised by bind()",
                         "before v4 a short positional list that covers the partition key may be rejected or kept short (statement silent)",
                         "routing key unconstrained when a partition key component is bound to None"]
